@@ -210,7 +210,8 @@ class FileE2E(Suite):
 
         bytes_ops = [["bytes", rb(n)] for n in (0, 1, 2, 3, 56, 57, 58, 114, 171, 511, 512, 513, 1025, 3071, 3072, 3073, 4500, 9000)] + [["bytes", bytes(range(256)).hex()], ["bytes", (b"\x00" * 300).hex()], ["bytes", (b"\xff\n\r" * 100).hex()]]
         text_ops = [["text", t] for t in ["", "x", "one line no newline", "50%d of %s", "100%", "%%", "C:\\new\\table", "a\\nb", "tab\\there %5d", "-n", "-e x", "one line\n", "a\nb", "a\nb\n", "\n", "\n\n\n", "tail blank\n\n", "ä€𝄞\nzweite Zeile ß\n", "#!/bin/sh\nset -e\necho \"Hello $USER\"\n",
-                                          "a\ntee: b", "tee: at the start\nmore\n", "x tee: y\n", line(700) + "\n" + line(600), line(1500) + "\n", "\n".join(line(rng.randint(0, 80)) for _ in range(30)) + "\n", " lead\n  trail  \n"]]
+                                          "a\ntee: b", "tee: at the start\nmore\n", "x tee: y\n", line(700) + "\n" + line(600), line(1500) + "\n", "\n".join(line(rng.randint(0, 80)) for _ in range(30)) + "\n", " lead\n  trail  \n",
+                                          "key = value\nother_key = ", "x\n ", "two\nlines  "]]      # several lines, the last one ends in a blank and has no newline
         ops = bytes_ops + text_ops
         extra = 10 if tier == "quick" else 120
         for _ in range(extra):
